@@ -62,7 +62,8 @@ def hosts():
 
 
 def plan(tier, seed, budget):
-    names = sorted(rule_units())
+    units = rule_units()
+    names = sorted(units)
     H = hosts()
     per_rule = int((150 if tier == "quick" else 6000) * budget)
     only = os.environ.get("VERIF_ONLY")
@@ -72,8 +73,9 @@ def plan(tier, seed, budget):
             continue
         if n in H:
             reps = 1 if tier == "quick" else 4
+            scale = max(1, min(4, len(units[n].rules) // 10))  # large rule sets (38 expand rules) get proportionally more hosts
             for r in range(reps):
-                specs.append({"rule": n, "n": max(1, per_rule // reps), "rep": r})
+                specs.append({"rule": n, "n": max(1, per_rule * scale // reps), "rep": r})
     specs.append({"rule": None, "uncovered": [n for n in names if n not in H], "n": 0})
     return specs
 
@@ -107,7 +109,10 @@ def apply_rule(model, rule_name, commute=False):
         count = rs.apply_to_model(mi)
     except Exception as e:  # noqa: BLE001
         return ("raise", f"{type(e).__name__}: {str(e)[:300]}", optcommon.innermost_frame(e))
-    return ("ok", count, ir.serde.serialize_model(mi))
+    try:
+        return ("ok", count, ir.serde.serialize_model(mi))
+    except Exception as e:  # noqa: BLE001  the rewritten model cannot even be serialised
+        return ("raise", f"{type(e).__name__}: {str(e)[:300]}", "unserializable_result:" + optcommon.innermost_frame(e))
 
 
 def check(model, rule_name, feeds_list, commute=False):
